@@ -23,7 +23,8 @@ EmitEdge ==
 \* been sent: 0, stale, exact, beyond.
 SimH == {0, out, out + 1, out + 3} \cup (IF out >= 1 THEN {out - 1} ELSE {}) \cup (IF out >= 3 THEN {out - 3} ELSE {})
 SimNext ==
-    \/ SendStanza \/ SendStanza \/ SendNonza \/ Req \/ RecvStanza \/ RecvNonza \/ Loss
+    \/ SendStanza \/ SendIqRequest \/ SendNonza \/ Req \/ RecvStanza \/ RecvIqGet \/ RecvNonza \/ Loss
+    \/ \E i \in pend : RecvIqResponse(i)
     \/ \E h \in SimH : Ack(h)
     \/ \E sm \in BOOLEAN : Reconnect(sm)
     \/ \E h \in SimH : ResumeOk(h)
